@@ -430,10 +430,10 @@ Proof.
   cbv zeta. rewrite time_feasible_rb_nil, replay_duration_rb_nil. reflexivity.
 Qed.
 
-Lemma replay_stat_rb_nil P vt acts : replay_stat_rb P [] vt acts = replay_stat P vt acts.
+Lemma replay_stat_rb_nil P vt acts : replay_stat_rb P [] vt acts (snd (last (replay (pdur P) acts) (0, 0))) = replay_stat P vt acts.
 Proof.
-  unfold replay_stat_rb, replay_stat. cbv zeta. rewrite replay_duration_rb_nil, replay_waiting_rb_nil.
-  unfold iv_total. cbn [map sumz fold_right]. rewrite Z.add_0_r. reflexivity.
+  unfold replay_stat_rb, replay_stat, replay_duration. cbv zeta. rewrite replay_waiting_rb_nil.
+  unfold iv_total. cbn [map sumz fold_right]. rewrite Z.add_0_r. destruct acts; reflexivity.
 Qed.
 
 Lemma mapi_from_ext {A B} (f g : Z -> A -> B) l : (forall k x, f k x = g k x) -> forall k, mapi_from k f l = mapi_from k g l.
@@ -447,6 +447,9 @@ Proof.
   - apply Z.eqb_eq in E. subst. apply Z.eqb_eq. lia.
   - apply Z.eqb_neq in E. apply Z.eqb_neq. lia.
 Qed.
+
+Lemma tour_over_nil x y : tour_over [] x y = y.
+Proof. unfold tour_over. rewrite same_time_nil. destruct (x =? y) eqn:E; [apply Z.eqb_eq in E; exact E|reflexivity]. Qed.
 
 Lemma act_checks_rb_nil k facts rep : act_checks_rb [] k facts rep = act_checks k facts rep.
 Proof.
@@ -463,7 +466,7 @@ Qed.
 Lemma replay_tour_rb_nil P k t : replay_tour_rb P [] [] k t = replay_tour P k t.
 Proof.
   unfold replay_tour_rb, replay_tour. rewrite rebuild_rb_nil. destruct (rebuild P t) as [r|]; [|reflexivity].
-  cbv zeta. rewrite replay_rb_nil, act_checks_rb_nil, stop_checks_rb_nil, map_shrink_nil, combine_fst_snd, replay_stat_rb_nil. reflexivity.
+  cbv zeta. rewrite replay_rb_nil, act_checks_rb_nil, stop_checks_rb_nil, map_shrink_nil, combine_fst_snd, tour_over_nil, replay_stat_rb_nil. reflexivity.
 Qed.
 
 Lemma dim_tour_viol_rb_nil P k t d : dim_tour_viol_rb P [] k t d = dim_tour_viol P k t d.
